@@ -558,13 +558,18 @@ func (s *Store) gcIndex(ctx context.Context) error {
 		// check if the referrers manifest can traverse to the existing graph
 		subject := &desc
 		for {
-			subject, err := manifestutil.Subject(ctx, s.storage, *subject)
+			next, err := manifestutil.Subject(ctx, s.storage, *subject)
 			if err != nil {
+				if errors.Is(err, errdef.ErrNotFound) {
+					// the chain ends at a manifest that is not stored
+					break
+				}
 				return err
 			}
-			if subject == nil {
+			if next == nil {
 				break
 			}
+			subject = next
 			if graph.Exists(*subject) {
 				if err := tagResolver.Tag(ctx, deleteAnnotationRefName(desc), desc.Digest.String()); err != nil {
 					return err
